@@ -8,11 +8,15 @@ export VERIF_SNAPSHOT=$(git -C /verif rev-parse HEAD)
 OUT=/tmp/regress-$$; mkdir -p $OUT
 ls -d /verif/seeded/*/ | xargs -n1 basename > $OUT/seeds.txt
 ls -d /verif/benign/*/ | xargs -n1 basename > $OUT/benign.txt
-worker() {
+seeds_part() {
   slot=$1; k=$2
   i=0
   while read id; do
     if [ $((i % N)) -eq $k ]; then
+      # results of an interrupted earlier run against the same snapshot may be handed in
+      if [ -n "$REGRESS_PREV" ] && grep -q "^seed $id .*exit=1" "$REGRESS_PREV"; then
+        grep "^seed $id " "$REGRESS_PREV" | head -1 >> $OUT/res-$k.txt; i=$((i+1)); continue
+      fi
       prop=$(python3 -c "import json;print(json.load(open('/verif/seeded/$id/meta.json'))['property'])")
       tier=quick; [ "$id" = "C15d-m2" ] && tier=thorough
       r=$(VERIF_TIER=$tier /verif/tools/benigncheck.sh /verif/seeded/$id $slot $prop 2>&1 | grep "^sc-\|BUILD\|PATCH" | tr '\n' ' ' | cut -c1-200)
@@ -20,6 +24,9 @@ worker() {
     fi
     i=$((i+1))
   done < $OUT/seeds.txt
+}
+benign_part() {
+  slot=$1; k=$2
   i=0
   while read id; do
     if [ $((i % N)) -eq $k ]; then
@@ -29,6 +36,8 @@ worker() {
     i=$((i+1))
   done < $OUT/benign.txt
 }
+# the harmless changes first (an alarm there is the more serious failure), then the seeded ones
+worker() { benign_part $1 $2; seeds_part $1 $2; }
 for k in $(seq 0 $((N-1))); do worker r$k $k & done
 wait
 {
